@@ -30,7 +30,9 @@ import (
 //     tree and parsing again is exact (parentheses counts included);
 //   - correspondence: real lexer(real String(e)) = model print e, real parse = model parse
 //     (also on malformed token streams), through the Lean driver in prefix notation;
-//   - specification validation: on pure Go expressions the real parser groups as go/parser does.
+//   - specification validation: on pure Go expressions the real parser groups as go/parser does;
+//   - statements (stmt.go): source → tree → String() → tree in every position of the grammar, and
+//     the regenerated operator tables against the real printer, lexer and parser.
 func main() { hx.Main("C27", run) }
 
 func repoDir() string {
@@ -169,11 +171,13 @@ func dialectName(d dialect) string {
 
 func run(c *hx.Ctx) error {
 	res := c.Res
-	res.Rule = "random real ast expression trees of depth ≤ 6 (all unary and binary operators, call, index, slicing, selector, type assertion, conversions, default; template and program dialects; random parentheses counts), three quarters of them outside the known finding postfix-operand-parens and one quarter in a separate stream that may contain it; half of them restricted to the Lean fragment (identifier, int literal, unary, binary, call, index, selector, parentheses); the expressions and statements of the corpus files under test/; mutated token streams. A case is non-trivial when its tree has at least one operator or postfix node; distinct by printed source and dialect"
+	res.Rule = "random real ast expression trees of depth ≤ 6 (all unary and binary operators, call, index, slicing, selector, type assertion, conversions, default; template and program dialects; random parentheses counts), three quarters of them outside the known finding postfix-operand-parens and one quarter in a separate stream that may contain it; half of them restricted to the Lean fragment (identifier, int literal, unary, binary, call, index, selector, parentheses); the expressions and statements of the corpus files under test/; mutated token streams; statements: every statement node with a source String form (assignments with each of the 15 operators and 1..4 sides, var, type, send, go, defer, goto, show, extends, import, render, text) written with go/token's spellings, in every position of the grammar that admits it (25 positions of program and template syntax), operands from fixed lists plus printed random expressions — a sample per cell in quick, the full product in thorough; the statements of the corpus files in the kind of position they stand in; the operator tables of the Lean side against the real printer, lexer and parser. A case is non-trivial when its tree has at least one operator or postfix node; distinct by printed source and dialect"
 
 	// ---- known findings are replayed first
 	for _, f := range c.Findings {
-		replayFinding(c, f)
+		if !replayStmtFinding(c, f) {
+			replayFinding(c, f)
+		}
 	}
 
 	// ---- 1. random trees: the oracle on the real code
@@ -250,6 +254,14 @@ func run(c *hx.Ctx) error {
 
 	// ---- 3. specification validation against go/parser
 	specGoParser(c, fragment)
+
+	// ---- 3b. statements in every position of the grammar; the operator tables
+	if err := statements(c); err != nil {
+		return err
+	}
+	if err := operatorTables(c); err != nil {
+		return err
+	}
 
 	// ---- 4. corpus
 	corpus(c)
@@ -662,18 +674,11 @@ func specGoParser(c *hx.Ctx, cases []caseInfo) {
 
 type exprCollector struct {
 	exprs []ast.Expression
-	stmts []ast.Node
 }
 
 func (v *exprCollector) visit(n ast.Node) {
 	if e, ok := n.(ast.Expression); ok && !isNil(e) {
 		v.exprs = append(v.exprs, e)
-	} else {
-		switch n.(type) {
-		case *ast.Assignment, *ast.Defer, *ast.Go, *ast.Goto, *ast.Send, *ast.Show, *ast.TypeDeclaration, *ast.Var:
-			// the statements whose String() is meant to be source
-			v.stmts = append(v.stmts, n)
-		}
 	}
 }
 
@@ -828,8 +833,8 @@ func corpus(c *hx.Ctx) {
 			res.AddBreak(proto.Break{Kind: "property", Name: clause, Case: "C27 source " + dialectName(d) + " source " + s,
 				Human: fmt.Sprintf("%s: expression %q", rel, s), Impl: got, Model: want, Finding: matchFinding(c, e, d)})
 		}
-		for _, st := range col.stmts {
-			corpusStatement(c, st, d, format)
+		for _, at := range collectStmts(tree, d) {
+			corpusStmt(c, at, rel)
 		}
 	}
 }
@@ -849,78 +854,4 @@ func isTypeOnly(e ast.Expression) bool {
 		return true
 	}
 	return false
-}
-
-// corpusStatement re-parses the String form of a statement in the same dialect and reports the
-// outcome in the histogram (statements are outside the Lean fragment: DESIGN §7 C27 "Not covered").
-func corpusStatement(c *hx.Ctx, st ast.Node, d dialect, format ast.Format) {
-	res := c.Res
-	name := fmt.Sprintf("%T", st)[5:]
-	if abbreviated(st) {
-		res.Hist("corpus-stmt-abbreviated-by-design-" + name)
-		return
-	}
-	if numberBeforeDot(st) {
-		res.Hist("corpus-stmt-known-literal-dot")
-		return
-	}
-	if nonPlain(st) {
-		res.Hist("corpus-stmt-known-postfix-operand-parens")
-		return
-	}
-	if e, ok := st.(ast.Expression); ok && invalidFullSlice(e) {
-		return
-	}
-	var s string
-	func() {
-		defer func() {
-			if r := recover(); r != nil {
-				s = ""
-			}
-		}()
-		s = st.(fmt.Stringer).String()
-	}()
-	if s == "" {
-		res.Hist("corpus-stmt-string-panics-" + name)
-		return
-	}
-	var tree *ast.Tree
-	var err error
-	func() {
-		defer func() {
-			if r := recover(); r != nil {
-				err = fmt.Errorf("panic: %v", r)
-			}
-		}()
-		if d == program {
-			tree, err = c27.ParseProgramSource([]byte("package p\nfunc f() {\n"+s+"\n}\n"), false)
-			if err != nil {
-				tree, err = c27.ParseProgramSource([]byte("package p\n"+s+"\n"), false)
-			}
-		} else {
-			tree, err = c27.ParseTemplateSource([]byte("{% "+s+" %}"), format)
-		}
-	}()
-	if err != nil || tree == nil {
-		res.Hist("corpus-stmt-printed-does-not-parse-" + name)
-		if os.Getenv("C27_DEBUG") != "" {
-			fmt.Fprintf(os.Stderr, "STMT %s %q: %v\n", name, s, err)
-		}
-		return
-	}
-	want := shape(st, false)
-	found := false
-	walkAll(reflect.ValueOf(tree), func(n ast.Node) {
-		if !found && reflect.TypeOf(n) == reflect.TypeOf(st) && shape(n, false) == want {
-			found = true
-		}
-	})
-	if found {
-		res.Hist("corpus-stmt-ok-" + name)
-	} else {
-		res.Hist("corpus-stmt-reparsed-differs-" + name)
-		if len(res.Notes) < 6 {
-			res.Notes = append(res.Notes, fmt.Sprintf("statement %s %q re-parses to a different tree (statements are outside the proved fragment)", name, s))
-		}
-	}
 }
